@@ -62,6 +62,7 @@ class Contract:
         self.pure_result = kw.get("pure_result", False)
         self.options = kw.get("options", {})
         self.ghost_after = kw.get("ghost_after", {})
+        self.lemma_after = kw.get("lemma_after", {})  # statement prefix -> [lemma clauses assumed right after that statement]
 
     def key(self):
         return (self.file, self.qualname)
@@ -407,7 +408,7 @@ def _run_cut(self, interp, node, st, gl):
         s.env["_m"] = m
         for lab, clause in spec.inv.items():
             c = reg.eval_clause(interp, s, clause)
-            ctx.oblige(s, c, f"{tag}.{phase}{m}[{lab}]", node, "inv-init" if phase == "init" else "inv-pres", meta={"clause": clause})
+            ctx.oblige(s, c, f"{tag}.{phase}{m}[{lab}]", node, "inv-init" if phase == "init" else "inv-pres", meta={"clause": clause}, focus=spec.focus.get(lab))
 
     def reassume(state, m):
         h = state
@@ -419,7 +420,7 @@ def _run_cut(self, interp, node, st, gl):
                 h.assume(w)
         h.env["_m"] = m
         for lab, clause in spec.inv.items():
-            h.assume(reg.eval_clause(interp, h, clause))
+            h.assume(reg.eval_clause(interp, h, clause), tag=f"inv:{lab}")
         return h
 
     assigned = _assigned_names(node)
